@@ -23,6 +23,8 @@ pub struct TCell {
     pub trail_br: usize,
     /// presentational attribute the renderer has no use for (align, valign, width)
     pub attr: Option<(&'static str, &'static str)>,
+    /// a cell without words whose source holds white space only (<td> </td>)
+    pub blank: bool,
 }
 
 impl TCell {
@@ -111,6 +113,9 @@ impl TTable {
                             content.push(El::new("br").node());
                         }
                     }
+                }
+                if c.blank && c.words.is_empty() {
+                    content.push(Node::Space);
                 }
                 if !c.paras || c.words.is_empty() {
                     for _ in 0..c.trail_br {
@@ -285,6 +290,7 @@ pub fn make_cell(rng: &mut Rng, tok: &mut Tokens, kind: Content, span: usize, wi
         paras: false,
         trail_br: 0,
         attr: None,
+        blank: false,
     }
 }
 
